@@ -281,7 +281,8 @@ class ConcEnv:
 
     def real(self, name, lo=None, hi=None, strict_lo=False, strict_hi=False):
         if name not in self.values:
-            raise KeyError("replay value for %s missing" % name)
+            # the concrete run asks for an input the symbolic path never created: it left that path (float rounding of the model)
+            raise ReplayUnavailable("replay value for %s missing" % name)
         return float(Fraction(self.values[name]))
 
     def choice(self, name, options):
